@@ -40,6 +40,7 @@ type Result struct {
 	Crashes      map[string]int       `json:"crash_observations"`
 	Funcs        map[string]int       `json:"functions_encoded"`
 	PathsByHarn  map[string]int       `json:"paths_by_harness"`
+	DoneByHarn   map[string]int       `json:"completed_by_harness"`
 	Samples      []map[string]string  `json:"samples"`
 	Outs         [][]string           `json:"outs,omitempty"`
 	Error        string               `json:"error,omitempty"`
@@ -218,6 +219,7 @@ func main() {
 		}
 	}
 	res.PathsByHarn = ex.PathsByHarn
+	res.DoneByHarn = ex.DoneByHarn
 	res.Samples = ex.Samples
 	res.Outs = ex.Outs
 	emit(res, *out)
